@@ -129,7 +129,7 @@ def expand_args(args, root, **more):
     return out
 
 
-def run_cmd(ctx, tree, op, now, cwd=None, keep=False, mtimes=None, root=None, observe=False, subst=None, order=None):
+def run_cmd(ctx, tree, op, now, cwd=None, keep=False, mtimes=None, root=None, observe=False, subst=None, order=None, tz=None):
     """materialise tree, run the command op, return (Res, post_tree[, obs])
     observe: also return obs = {meta_pre, meta_post, audit (write-type events), opens (read opens)}"""
     root = root or ctx.root
@@ -138,13 +138,13 @@ def run_cmd(ctx, tree, op, now, cwd=None, keep=False, mtimes=None, root=None, ob
     name, args = to_args(op)
     args = expand_args(args, root, **(subst or {}))
     if not observe:
-        res = ctx.run(name, args, now=now, cwd=cwd, order=order)
+        res = ctx.run(name, args, now=now, cwd=cwd, order=order, tz=tz)
         return res, sub.readback(root)
     base = os.path.dirname(root)
     meta_pre = sub.snapshot_meta(base)
     sub.AUDIT.update(on=True, events=[], opens=[], prefix=base)
     try:
-        res = ctx.run(name, args, now=now, cwd=cwd, order=order, audit_prefix=base)
+        res = ctx.run(name, args, now=now, cwd=cwd, order=order, audit_prefix=base, tz=tz)
     finally:
         sub.AUDIT["on"] = False
     meta_post = sub.snapshot_meta(base)
